@@ -39,6 +39,7 @@ type Unit struct {
 	written  map[string]bool
 	subSeen  map[string]bool
 	havocAlls []string
+	havocGuards []Term
 	inlineStack []*ssa.Function
 	specMode int // >0: evaluating Go code inside a specification (no obligations)
 	oblSuffix string
